@@ -19,7 +19,7 @@ pub fn gen_opts(g: &mut Gen) -> BuildOpts {
 
 pub fn all_facets() -> Profile {
     Profile { min_axes: 0, max_axes: 3, max_glyphs: 12, min_glyphs: 1, outlines: true, cubic: true, components: 5, transforms: true, mixed: true, sparse: 3,
-        order_variety: true, non_export: true, metrics_class_a: true, vertical: true, half_coords: true, maps: true, awkward_axes: true, multi_codepoints: true, ps_names: true, anchors: true, kerning: true, instances: true, flat_maps: false, point_axis: true, weird_names: false, ..Profile::base() }
+        order_variety: true, non_export: true, metrics_class_a: true, vertical: true, half_coords: true, maps: true, awkward_axes: true, multi_codepoints: true, ps_names: true, anchors: true, kerning: true, instances: true, flat_maps: false, point_axis: true, weird_names: false, os2_ranges: true, ..Profile::base() }
 }
 
 /// validity + "tables the source calls for are present"
